@@ -108,11 +108,11 @@ CLAIMED = {
         "package-level state are not modelled.",
    note="Lean kernel + propext/Quot.sound; map order is quantified in the model, sampled on the implementation.", technique=T, design="§4 C12"),
  "C01": dict(
-   text="Partial. Lean proof of the print->parse round trip for five byte-level fragments: M-Whole (WHOLE MODULES: type definitions, global variables, function definitions and the metadata "
+   text="Partial. Lean proof of the print->parse round trip for six byte-level fragments: M-DI (the 26 SPECIALISED METADATA NODE kinds `!DIKind(keyword: value, …)`: printer, reader and translation generic over a table of kinds and fields that is REGENERATED from the LLString methods and the irDI… functions of /repo on every run; di_roundtrip for every well-formed node of every kind, static theorems over the regenerated table: printer fields = parser fields, parser defaults = LLVM's, enum fields wrapped), M-Whole (WHOLE MODULES: type definitions, global variables, function definitions and the metadata "
         "section in one text, top-level splitter, cross-fragment checks: whole_roundtrip), M-Meta (the metadata section: numbered tuples with null / reference / string / typed-constant / nested-tuple "
-        "fields, distinct, named metadata: meta_roundtrip), M-Core-3 (FUNCTION DEFINITIONS: any number of parameters and named / numbered blocks, 88 instruction and "
+        "fields, distinct, named metadata: meta_roundtrip), M-Core-3 (FUNCTION DEFINITIONS: any number of parameters and named / numbered blocks, 97 instruction and "
         "terminator rows — the integer and floating-point binary operations, icmp / fcmp with every predicate, load / store / alloca with an optional alignment, select, the 13 conversions, phi, freeze, "
-        "fneg, the vector element instructions, extractvalue / insertvalue with index paths, getelementptr (typed through the C07 model), call (void and value, any argument list), va_arg, ret, br, conditional br, unreachable, switch (its cases on lines of their own), invoke / landingpad (cleanup, catch and filter clauses) / resume — over local values incl. forward references, "
+        "fneg, the vector element instructions, extractvalue / insertvalue with index paths, getelementptr (typed through the C07 model), call (void and value, any argument list), va_arg, ret, br, conditional br, unreachable, switch (its cases on lines of their own), invoke / landingpad (cleanup, catch and filter clauses) / resume, the atomic memory instructions (load / store atomic, fence, cmpxchg, atomicrmw with their orderings), indirectbr and the funclet instructions (catchswitch, catchpad, cleanuppad, catchret, cleanupret; the kind of the definition a pad reference names is checked: core3_pad_kinds) — over local values incl. forward references, "
         "global variables and functions of the enclosing module (@name operands: whole_global_refs_resolve) "
         "and nested constants; generic row-table reader proved to invert the printer, translation = asm/local.go: numbering, duplicates, undefined uses, label kinds, operand "
         "retyping), M-Core (opaque type definitions + integer globals: all names, widths, values, both literal "
